@@ -111,6 +111,17 @@ Theorem C02_model_le : forall x y r s' cs vx vy, run (le c x y) s = (inl r, s', 
   2 ^ (Z.of_nat (nbits c) + 1) <= p -> ew x == vx -> ew y == vy -> - 2 ^ Z.of_nat (nbits c) <= vy - vx < 2 ^ Z.of_nat (nbits c) ->
   ew r == (if vx <=? vy then 1 else 0).
 Proof. exact (le_forced Hp w W0 c s G). Qed.
+Theorem C02_model_gt : forall x y r s' cs vx vy, run (gt c x y) s = (inl r, s', cs) -> sat cs ->
+  2 ^ (Z.of_nat (nbits c) + 1) <= p -> ew x == vx -> ew y == vy -> - 2 ^ Z.of_nat (nbits c) <= vx - vy - 1 < 2 ^ Z.of_nat (nbits c) ->
+  ew r == (if vy <? vx then 1 else 0).
+Proof. exact (gt_forced Hp w W0 c s G). Qed.
+Theorem C02_model_ge : forall x y r s' cs vx vy, run (ge c x y) s = (inl r, s', cs) -> sat cs ->
+  2 ^ (Z.of_nat (nbits c) + 1) <= p -> ew x == vx -> ew y == vy -> - 2 ^ Z.of_nat (nbits c) <= vx - vy < 2 ^ Z.of_nat (nbits c) ->
+  ew r == (if vy <=? vx then 1 else 0).
+Proof. exact (ge_forced Hp w W0 c s G). Qed.
+Theorem C02_model_bit_and : forall a b r s' cs, run (bit_and a b) s = (inl r, s', cs) -> sat cs -> Sound.isbit p (ew a) -> Sound.isbit p (ew b) ->
+  ew r == ew a * ew b /\ Sound.isbit p (ew r).
+Proof. exact (bit_and_forced Hp w s). Qed.
 Theorem C02_model_sign : forall x k r s' cs, run (check_positive x k) s = (inl r, s', cs) -> sat cs ->
   (ew r == 1 /\ exists v, 0 <= v < 2 ^ Z.of_nat k /\ ew x == v) \/ (ew r == 0 /\ exists v, - 2 ^ Z.of_nat k <= v < 0 /\ ew x == v).
 Proof. exact (check_positive_forced Hp w W0 s G). Qed.
